@@ -699,9 +699,10 @@ CHECKS = {
         "parts": [
             {"module": "rueidis", "scenario": "lua-exec", "quick": 20000, "thorough": 800000},
             {"module": "rueidis", "scenario": "lua-exec", "variant": "cluster", "quick": 12000, "thorough": 400000},
+            {"module": "rueidis", "scenario": "lua-exec", "variant": "race", "quick": 8000, "thorough": 400000},
         ],
         "expected_probes": ["noscript-then-eval", "ghost-script-flush", "node-restart-lost-script-cache", "executed-but-unanswered",
-                            "retryable-script-re-executed-after-fault", "exec-requested-sha-with-script-load", "first-exec-of-load-sha1-script-started-alone",
+                            "retryable-script-re-executed-after-fault", "exec-requested-sha-with-script-load", "first-exec-of-load-sha1-script-started-alone", "first-execs-of-load-sha1-script-overlapped",
                             "execmulti-loaded-script-on-several-nodes", "execmulti-spanned-nodes", "fault-free-plan",
                             "evalsha-answered-with-another-error"],
         "components": {"real": REAL, "stubs": STUBS},
@@ -710,7 +711,9 @@ CHECKS = {
             "a re-execution after a transport error is what the caller asked for when the script is marked retryable or read-only (the client retries read-only commands) and "
             "retries are enabled: 'at most once' is not judged for those under faults",
             "Lua.sha1Mu is held across the SCRIPT LOAD round trip and a goroutine blocked on a sync.RWMutex is not durably blocked under synctest: a call on a load-SHA1 object "
-            "whose SHA is still unknown is only started while no other call on that object is in flight, so concurrent first Execs waiting on the mutex are not explored",
+            "whose SHA is still unknown is only started while no other call on that object is in flight in parts 1 and 2; part 3 (variant race: stand-alone node, 1-2 scripts "
+            "that mostly use WithLoadSHA1) acquires that mutex through the lock seam of hook commit 3ef6acd instead - a scheduling point before the write lock is taken, "
+            "waiters poll once per scheduling decision - so that first Execs that both read an empty SHA overlap and rule (5) is judged for them",
             "cluster part: keyed commands only; an Exec of a load-SHA1 object whose SHA is unknown would send the key-less SCRIPT LOAD to the node Go's map iteration yields "
             "first, so such calls are issued as a one-unit ExecMulti; rule (5) is therefore exercised on the single-node part only; at most 4 nodes; no slot migration; "
             "Lua.maxp and every multiplexer's parallelism are pinned to 16",
